@@ -157,6 +157,8 @@ def main():
     c18_programs.helper_duals(run)
     # 4. programs: eager vs compiled
     c18_programs.programs(run)
+    if run.tier == "thorough":
+        run.leanchecker(["TdVerif.Props.C18"])
     run.finish("proof")
 
 
